@@ -81,7 +81,7 @@ class C11(core.Property):
     theorems = []
     variants = ["repaired"]
     quick_cases = 400
-    thorough_cases = 30000
+    thorough_cases = 20000
     case_timeout_s = 30
     search_budget = {"quick": 150, "thorough": 2000}
     rule = ("family lat: 3–5 RaftNodes, 1.2–3 s of simulated time, heartbeat 60–120 ms, election timeouts 150–400 ms drawn from the case, "
